@@ -19,6 +19,7 @@ THEOREMS = [
     "CrCube.C02.mask_fin",
     "CrCube.C02.strand_bases_spec",
     "CrCube.C02.ca_bases_spec",
+    "CrCube.C02.table_range_spec",
 ]
 RULE = ("random designs (1-3 variables over cat/cat_date/datetime/text/binned/mr/ca, missing categories anywhere, "
         "per-item missingness) x random surveys x min-base sizes; every base / margin / range / mask output of every "
